@@ -142,6 +142,14 @@ def generate(tier, seed, work, stats):
         cases.append(dict(kind="ig", rules=rules, nts=["S", "A", "B", "C", "D", "E"], idx=["f", "g"], maxperm=10, family="random-big"))
     for rules in productive_grammars(500 if tier == "quick" else 8000, seed + 18):
         cases.append(dict(kind="ig", rules=rules, nts=["S", "A", "B", "C"], idx=["f", "g"], maxperm=24, family="random-productive"))
+    # a counter modulo p on the stack: the derivation has to go round a ring of p consumption rules (more sweeps of the
+    # marking algorithm than the grammar has other rules)
+    for size in ((5, 6) if tier == "quick" else (5, 6, 7, 8)):
+        ring = [["pop", "f", "A%d" % i, "A%d" % ((i + 1) % size)] for i in range(size)] + [["pop", "g", "A%d" % (size - 1), "T"]]
+        other = [["push", "S", "L", "g"], ["push", "L", "L", "f"], ["dup", "L", "A0", "T"], ["end", "T", "a"]]
+        nts = ["S", "L", "T"] + ["A%d" % i for i in range(size)]
+        cases.append(dict(kind="ig", rules=other + ring, nts=nts, idx=["f", "g"], maxperm=8, family="directed-ring-counter"))
+        cases.append(dict(kind="ig", rules=ring + other, nts=nts, idx=["f", "g"], maxperm=8, family="directed-ring-counter"))
     # intersections with automata of the FA generator (terminal "a")
     ops = []
     for kind in ("enfa", "dfa"):
